@@ -467,10 +467,47 @@ fn run(args: &Args, rep: &mut Report) {
         }
     }
     rep.add("exhaustive-pairs", true, "21 x 21 pairs of representative attribute groups (separate and combined) x 3 drivers", vec![acc]);
+
+    // colour values above 255 name no colour: the run keeps its colours (value ignored) or falls
+    // back to the default (value saturated, not a palette index 0-15) - never a palette colour
+    // that the stream did not ask for
+    let mut acc = Acc::new();
+    let big = ["256", "257", "258", "265", "271", "272", "300", "511", "513", "1000", "4097", "65535", "99999"];
+    'oor: for t in ["38", "48"] {
+        for v in big {
+            for spec in [format!("{t};5;{v}"), format!("{t}:5:{v}"), format!("{t};2;{v};0;0"), format!("{t};2;1;{v};2"), format!("{t}:2:3:4:{v}"), format!("{t}:2::{v}:{v}:{v}")] {
+                for (pre, post) in [("", ""), ("\x1b[31;44m", ""), ("", ";1"), ("\x1b[92m", ";45")] {
+                    for drv in [Driver::Write, Driver::WriteAll, Driver::Fmt] {
+                        let bytes = format!("a{pre}b\x1b[{spec}{post}mc\x1b[0md").into_bytes();
+                        let case = Case { hex: rt::hex(&bytes), cuts: vec![], driver: drv, script: vec![], lits: vec![], colours: true };
+                        acc.eval();
+                        let r = rt::guarded(|| sgr::with_out_of_range(sgr::OutOfRange::Ignore, || check(&case)))
+                            .or_else(|m| rt::guarded(|| sgr::with_out_of_range(sgr::OutOfRange::Saturate, || check(&case))).map_err(|_| m));
+                        match r {
+                            Ok(_) => {
+                                acc.nontrivial_distinct();
+                                acc.sample(|| json!({"text": esc(&bytes)}));
+                            }
+                            Err(m) => {
+                                acc.fail("out-of-range-colour-values", serde_json::to_value(&case).unwrap(), format!("(colour value above 255; against the 'changes nothing' reading) {m}"));
+                                break 'oor;
+                            }
+                        }
+                    }
+                }
+            }
+        }
+    }
+    rep.add("out-of-range-colour-values", true, "38/48 extended colours with an index or component in 256..=65535 (6 spellings x 13 values x 4 contexts x 3 drivers); accepted: colours unchanged, or the saturated value (default)", vec![acc]);
 }
 
-fn replay(_sub: &str, case: &Value) -> Result<(), String> {
+fn replay(sub: &str, case: &Value) -> Result<(), String> {
     let case: Case = serde_json::from_value(case.clone()).map_err(|e| format!("bad case: {e}"))?;
+    if sub == "out-of-range-colour-values" {
+        return sgr::with_out_of_range(sgr::OutOfRange::Ignore, || check(&case))
+            .or_else(|m| sgr::with_out_of_range(sgr::OutOfRange::Saturate, || check(&case)).map_err(|_| m))
+            .map(|_| ());
+    }
     check(&case).map(|_| ())
 }
 
